@@ -249,7 +249,10 @@ ADDENDA = {
            "value (ties) is a violation; a dict-valued per-sector limit of the partial-SVD policies is looked up by a key depending on the "
            "same options (nU, sU) as the S-sector charges; K == 0 protection is decided on the CFG. Round 4: the spectrum masked and returned by the wrappers is the one the decomposition computed; every sector passes the computation of its keep-count in the per-block stage.",
     "C14": "Also: parallel per-block sequences narrowed by the same selection (seqsel), converse of I2, inverse-permutation typing. Round 4: the resize/clear/info tables pair every kernel with itself (K4); no break directly behind an inner search loop that has none; the who-must-read rule I9.",
-    "C15": "Also: library calls allowed to overwrite their operand (scipy overwrite_a/overwrite_b=True) count as writes into that operand.",
+    "C15": "Also: library calls allowed to overwrite their operand (scipy overwrite_a/overwrite_b=True) count as writes into that operand. "
+           "Round 4: the PEPS environments stay outside the interprocedural summaries (DESIGN 9.9), but M6 holds helpers that are called from "
+           "them with the caller's own parameter to M1, M7 holds the DIRECT writes of the environments' public value-returning operations to the "
+           "property (two named exceptions), and M8 reports a mutable default that the function writes, over the whole package.",
     "C16": "Also: no parameter of a memoised function is an instance of a stateful identity-hashed class (Tensor, MPS, ...); the fermionic "
            "flag vector handed to the memoised sign computations has one (boolean) encoding on every path.",
     "C17": "Also: an option resolved by self-delegation forwards every other parameter (to_dict(resolve_ops=True) keeps meta); every key a "
